@@ -263,3 +263,25 @@ impl<V> DotBuilder for HostMatcher<V> {
         Some(node_name)
     }
 }
+
+#[cfg(feature = "verif")]
+impl<T> HostMatcher<T> {
+    /// Canonical (sorted) rendering of the matcher state (verification hook)
+    pub fn verif_snapshot(&self) -> String {
+        let mut statics: Vec<String> = self
+            .static_hosts
+            .iter()
+            .map(|(host, matcher)| format!("{host:?}=>{}", matcher.verif_snapshot()))
+            .collect();
+        statics.sort();
+
+        format!(
+            "HO{{count:{},always_any:{},any:{},static:[{}],tree:{:?}}}",
+            self.count,
+            self.always_match_any_host,
+            self.any_host.verif_snapshot(),
+            statics.join(","),
+            self.regex_tree_rule.verif_snapshot(&|matcher| matcher.verif_snapshot())
+        )
+    }
+}
